@@ -22,7 +22,7 @@ Definition load_q (K : nat) : Q (nat * nat) := qbind i_as_ref (fun r => q_raw_pa
 Ltac q_unfold :=
   cbv beta iota delta [qbind qret qget qput qfault q_deref q_add q_sub q_usub q_raw_parts pm_limit pm_base pm_data
                        ps_start ps_end ps_cursor pst_of
-                       i_slice_from_ptr_range i_pos i_peek i_peek_ahead i_len i_is_empty i_commit i_advance i_bump
+                       i_pos i_peek i_peek_ahead i_len i_is_empty i_commit i_advance i_bump
                        i_as_ref i_slice i_slice_skip i_advance_and_commit i_next i_new i_peek_n load_q].
 
 Ltac cmp :=
